@@ -183,6 +183,26 @@ def run(ctx):
     nsteps = 2 + ch.draw(14, "nsteps")
     for _ in range(nsteps):
         sess.step()
+        if ch.coin(1, 10, "continue-on-a-deep-copy"):
+            # the client forks an extension (copy.deepcopy) and the history goes on with the copy: a copy is an extension
+            # in its own right (its definitions are its own and report it as their owner), equal to the original so far
+            import copy
+            i = ch.draw(len(sess.exts), "which-ext")
+            orig = sess.exts[i]
+            try:
+                d_before = orig.to_json()
+                cp = copy.deepcopy(orig)
+                ctx.ev("client", "copy.deepcopy(extension)", orig.name)
+                ctx.probe("continued_on_a_deep_copy")
+                ctx.checked("copy")
+                if cp.to_json() != d_before or orig.to_json() != d_before:
+                    ctx.violate("preserve", "deep-copy-serialises-differently", {"ext": orig.name})
+                if any(od is orig.operations[k] for k, od in cp.operations.items()) or any(td is orig.types[k] for k, td in cp.types.items()):
+                    ctx.violate("owner", "deep-copy-shares-definitions-with-the-original", {"ext": orig.name})
+                sess.exts[i] = cp
+            except Exception as ex:  # noqa: BLE001
+                ctx.violate("serialise", f"deepcopy-or-to_json-raised:{type(ex).__name__}", {"ext": orig.name, "error": str(ex)[:200]})
+                return
         if ch.coin(1, 4, "mid-history-serialise"):
             # a query in the middle of the history (documents are written at any time, not only at the end)
             e = sess.exts[ch.draw(len(sess.exts), "which-ext")]
